@@ -59,6 +59,13 @@ def run(ctx):
             t = os.path.join(ctx.work, name + ".ndjson")
             lib.run_driver(exe, ["hist", t, nscen, steps, size], env=env, timeout=1500)
             traces.append(t)
+        if not q:
+            # the same histories against the ASan/UBSan-instrumented STIR libraries: a memory error inside
+            # the cache code ends the child process and becomes an Abort line (rejected by the specification)
+            exe_san = lib.build_driver("c16_scatter", santree=True)
+            t = os.path.join(ctx.work, "hsan.ndjson")
+            lib.run_driver(exe_san, ["hist", t, 16, 40, 0], env={"VERIF_SEED": str(ctx.seed + 1000)}, timeout=1500)
+            traces.append(t)
     # ---------------------------------------------------------------- 3. validate
     chunks = []
     for t in traces:
